@@ -1151,7 +1151,7 @@ def weighted_designs(tier, sd):
 
 
 def c23(tier):
-    ck = Check("C23", tier, "exploration",
+    ck = Check("C23", tier, "other",
                "Weighted levels vs their copy-expanded twin (relational, no oracle): each design with weighted levels of non-derived factors is built twice — "
                "with weights, and with every weighted level replaced by separately named weight-1 copies (derivation tables re-keyed) — and both are exhausted "
                "with IterateSATGen and RandomGen. Renaming the copies back, the sets of printed sequences must be equal; when the weighted factor is in every "
